@@ -47,6 +47,10 @@ CLAIMS = {
          "Structural necessary (and for the Feistel/cycle-walk part also sufficient) conditions: Batches/Chunks tile their range; every Feistel round is (L,R)<-(R, L xor g(R)) with complementary half widths and an even round count; shuffleIndex cycle-walks within the next power of two and returns only values < n; every byte the line reader consumes is accounted in the manifest offsets; Chunk.Read slices exactly what NewChunker recorded. Found and fixed: F-4 (blank lines shifted all later offsets). I/O behaviour and shuffle quality are not decided.",
          "Trusts go/ssa; the tuner's server/client glue does not type-check offline and is not analysed.",
          "DESIGN.md §3 C20, §4 F-4"),
+ "C15": ("constant/layout evaluation (types.Sizes, lane constants recognised from SSA), sibling comparison of probe vs store addressing, symbolic partition of the score axis for the mate re-basing mirror, def-use analysis of lane bookkeeping in Insert, single-writer effect sets, resize bound arithmetic",
+         "Structural necessary conditions: bucket layout arithmetic is consistent; LookUp and Insert address bucket and signature identically and the hit returns the matching lane's entry; Insert's and Value's mate re-basing are exact mirrors with the same thresholds and strictness; the lane cleared, the lane set and the entry overwritten are the same lane; keep-deeper and keep-move fire only under signature match with their stated conditions; only Insert/Clear/Resize write table state and callers only read the probed entry; Resize never produces an empty or misaligned table. Replacement-policy effects over operation sequences are not decided.",
+         "Trusts go/ssa and types.SizesFor(gc, amd64); zero-signature keys excluded (as the property does).",
+         "DESIGN.md §3 C15"),
 }
 
 NOT_YET = "no static rule of DESIGN.md §3 for this property is built in this revision yet; not claimed"
